@@ -52,6 +52,9 @@ pub struct FaultPoint {
     /// index of the failed call, counted from the end of the initial open; None = fault-free run
     pub pos: Option<u64>,
     pub sticky: bool,
+    /// the failing write/append leaves the first half of its buffer in the file
+    #[serde(default)]
+    pub partial: bool,
 }
 
 #[derive(Default, Debug, Clone)]
@@ -397,7 +400,10 @@ fn run_point_inner(p: &FaultPoint) -> Result<FaultInfo, String> {
     let mut db = Some(DB::open(options_dyn(fsd.clone(), &cfg)).map_err(|e| format!("fault-free initial open failed: {e:?}"))?);
     let base = ctl.calls.load(std::sync::atomic::Ordering::SeqCst);
     match p.pos {
-        Some(pos) => ctl.arm(base + pos, p.sticky),
+        Some(pos) => {
+            ctl.arm(base + pos, p.sticky);
+            ctl.partial.store(p.partial, std::sync::atomic::Ordering::SeqCst);
+        }
         None => ctl.log_kinds.store(true, std::sync::atomic::Ordering::SeqCst),
     }
     let mut run = Run { case, events: vec![], counter: 0, info: FaultInfo::default() };
@@ -658,7 +664,7 @@ pub fn worker(ctx: &WorkerCtx) -> WorkerResult {
         let counting = !*failed.borrow();
         let ch = hash_json(&case);
         // fault-free run: count and classify the calls
-        let base = FaultPoint { dircheck: false, case: case.clone(), pos: None, sticky: false };
+        let base = FaultPoint { dircheck: false, case: case.clone(), pos: None, sticky: false, partial: false };
         let info = match guarded_point(&base) {
             PointOutcome::Ok(i) => i,
             PointOutcome::Violation(v) => {
@@ -695,8 +701,15 @@ pub fn worker(ctx: &WorkerCtx) -> WorkerResult {
             }
         }
         for pos in positions {
-            for sticky in [false, true] {
-                let p = FaultPoint { dircheck: false, case: case.clone(), pos: Some(pos), sticky };
+            // modes: transient, sticky, and - for writes/appends - a failure that leaves the first half
+            // of the buffer in the file (transient or sticky by the position's hash)
+            let is_write = matches!(info.kinds.get(pos as usize), Some(&"write") | Some(&"append"));
+            let mut modes = vec![(false, false), (true, false)];
+            if is_write {
+                modes.push((mix(ch, 0x77 + pos) % 2 == 0, true));
+            }
+            for (sticky, partial) in modes {
+                let p = FaultPoint { dircheck: false, case: case.clone(), pos: Some(pos), sticky, partial };
                 let out = guarded_point(&p);
                 let mut r = res.borrow_mut();
                 if counting {
@@ -709,7 +722,10 @@ pub fn worker(ctx: &WorkerCtx) -> WorkerResult {
                                 let kind = w.split(' ').next().unwrap_or("?").to_string();
                                 *r.classes.entry(format!("failed_{kind}")).or_insert(0) += 1;
                                 if i.api_calls_after_fault >= 1 {
-                                    r.nontrivial_hashes.push(mix(ch, pos * 2 + sticky as u64));
+                                    r.nontrivial_hashes.push(mix(ch, pos * 4 + sticky as u64 + 2 * partial as u64));
+                                    if partial {
+                                        r.bump("failed_write_left_half_of_its_buffer_in_the_file");
+                                    }
                                 }
                                 if i.errors_returned > 0 {
                                     r.bump("runs_with_error_reported_to_caller");
@@ -850,7 +866,7 @@ pub fn worker_hang_only(ctx: &WorkerCtx, res: &RefCell<WorkerResult>) {
             return Ok(());
         }
         let ch = hash_json(&case);
-        let base = FaultPoint { dircheck: false, case: case.clone(), pos: None, sticky: false };
+        let base = FaultPoint { dircheck: false, case: case.clone(), pos: None, sticky: false, partial: false };
         let info = match guarded_point(&base) {
             PointOutcome::Ok(i) => i,
             _ => return Ok(()),
@@ -864,7 +880,7 @@ pub fn worker_hang_only(ctx: &WorkerCtx, res: &RefCell<WorkerResult>) {
         while pos < n {
             // prefer write-side calls: they drive the sticky error state
             let sticky = mix(ch, pos as u64) & 1 == 1;
-            let p = FaultPoint { dircheck: false, case: case.clone(), pos: Some(pos as u64), sticky };
+            let p = FaultPoint { dircheck: false, case: case.clone(), pos: Some(pos as u64), sticky, partial: false };
             let bg0 = crate::guard::bg_panics();
             let out = guarded_point(&p);
             let mut r = res.borrow_mut();
@@ -957,7 +973,7 @@ pub fn worker_dircheck(ctx: &WorkerCtx, res: &RefCell<WorkerResult>) {
         }
         case.ops = ops;
         let ch = hash_json(&case);
-        let base = FaultPoint { dircheck: false, case: case.clone(), pos: None, sticky: false };
+        let base = FaultPoint { dircheck: false, case: case.clone(), pos: None, sticky: false, partial: false };
         let info = match guarded_point(&base) {
             PointOutcome::Ok(i) => i,
             _ => return Ok(()),
@@ -975,7 +991,7 @@ pub fn worker_dircheck(ctx: &WorkerCtx, res: &RefCell<WorkerResult>) {
         let step = (reads.len() / per).max(1);
         let mut i = (mix(ch, 3) % step as u64) as usize;
         while i < reads.len() {
-            let p = FaultPoint { dircheck: true, case: case.clone(), pos: Some(reads[i] as u64), sticky: false };
+            let p = FaultPoint { dircheck: true, case: case.clone(), pos: Some(reads[i] as u64), sticky: false, partial: false };
             let out = guarded_point(&p);
             let mut r = res.borrow_mut();
             r.evaluations += 1;
